@@ -243,7 +243,8 @@ def random_leaf(rng, allow_float=False, big=False, narrow=False):
     if t == 0:
         return [0, rng.randint(1, m)]
     if t == 1:
-        return [1, rng.randint(1, 3 if not big else 6)]
+        # big: up to 12 bits (points are int8 arrays: 8 bits and more overflow an int8 accumulator)
+        return [1, rng.randint(1, 3) if not big else rng.choice([2, 5, 7, 8, 9, 10, 12])]
     if t == 2:
         return [2] + [rng.randint(1, m) for _ in range(rng.randint(1, 3))]
     if t == 3:
